@@ -28,14 +28,7 @@ Definition ev3_eqb (a b : ev3) : bool :=
 Definition tk_eqb (a b : tokty * bytes) : bool := tokty_eqb (fst a) (fst b) && bytes_eqb (snd a) (snd b).
 
 (* lql.ParseExpr: the empty text is "no expression"; None = error *)
-Definition expr_of_text (text : bytes) : option (option expr) :=
-  match text with
-  | [] => Some None
-  | _ => match tokenize go_unquote text with
-         | Some ts => option_map Some (parse_expr_tokens ts)
-         | None => None
-         end
-  end.
+Definition expr_of_text : bytes -> option (option expr) := parse_expr_text go_unquote.
 
 Definition mk_build (times : list (bytes * option Z)) (e : option expr) : option wef :=
   build_where path_match ascii_upper ascii_lower (assoc_opt times) e.
